@@ -12,6 +12,9 @@ def a(code, val, sub=""):
     return {"t": "a", "sub": sub, "code": code, "val": val}
 
 
+SUBS = ["", "Touchpad", "Motion Sensors"]
+
+
 def k(code, val):
     return {"t": "k", "sub": "", "code": code, "val": val}
 
@@ -63,30 +66,44 @@ class C07(DevProp):
             analogs, absl, pairs, axinfo = [], [], [], []
             ch0 = rng.randint(1, 16)
             ccs = rng.sample(range(0, 120), 2 * naxes + 1)
+            same_code = (ci % 3 == 0) and naxes >= 2      # the same ABS code on different sub-handlers (as on the PS4 controller)
             for i in range(naxes):
-                code = [agen.ABS_X, agen.ABS_Y, agen.ABS_RX][i]
+                code = agen.ABS_X if same_code else [agen.ABS_X, agen.ABS_Y, agen.ABS_RX][i]
+                sub = SUBS[i] if same_code else ""
                 kind = rng.choice(["s8", "s16", "u8c", "u16c"])
                 mn, mx = {"s8": (-128, 127), "s16": (-32768, 32767), "u8c": (0, 255), "u16c": (0, 65535)}[kind]
                 off, offneg = rng.choice([0, 0, 3, 15]), rng.choice([0, 0, 7])
-                an = agen.analog(code, "cc", cc=ccs[2 * i], ccneg=ccs[2 * i + 1], off=off, offneg=offneg, flip=rng.random() < 0.3,
+                if same_code:
+                    kind = ["s8", "u8c", "s8"][i] if i else kind      # one AbsInfo per code: keep ranges compatible
+                    mn, mx = (-128, 127) if not kind.endswith("c") else (0, 255)
+                    if i and (mn, mx) != (absl[0]["min"], absl[0]["max"]):
+                        mn, mx = absl[0]["min"], absl[0]["max"]
+                        kind = "u8c" if mn == 0 else "s8"
+                an = agen.analog(code, "cc", sub=sub, cc=ccs[2 * i], ccneg=ccs[2 * i + 1], off=off, offneg=offneg, flip=rng.random() < 0.3,
                                  bidi=True, dzc=kind.endswith("c"))
                 analogs.append(an)
-                absl.append({"code": code, "min": mn, "max": mx})
+                if not (same_code and i):
+                    absl.append({"code": code, "min": mn, "max": mx})
                 pairs.append((ccs[2 * i], (ch0 - 1 + off) % 16, ccs[2 * i + 1], (ch0 - 1 + offneg) % 16))
-                axinfo.append((code, positions(mn, mx, kind.endswith("c"))))
+                axinfo.append((code, positions(mn, mx, kind.endswith("c")), sub))
             # one unidirectional axis sharing the device
             analogs.append(agen.analog(agen.ABS_Z, "cc", cc=ccs[-1], off=1))
             absl.append({"code": agen.ABS_Z, "min": 0, "max": 255})
             dz = rng.choice([0.0, 0.1, 0.25])
-            cfg = agen.base_cfg(analogs, defdz=[{"sub": "", "bits": str(bits(dz))}], actions=[{"code": LEARN, "action": "cc_learning"}], channel=ch0)
+            cfg = agen.base_cfg(analogs, defdz=[{"sub": sb, "bits": str(bits(dz))} for sb in SUBS], actions=[{"code": LEARN, "action": "cc_learning"}], channel=ch0)
             ev = []
             learning = False
             script = list(allpairs)
             rng.shuffle(script)
             script = script[: (14 if tier == "quick" else 42)]
             for (p, q) in script:
-                code, pos = rng.choice(axinfo)
-                ev += [a(code, pos[p]), a(code, pos[q])]
+                code, pos, sub = rng.choice(axinfo)
+                if same_code and rng.random() < 0.5:
+                    # interleave two axes that share the code: B to one side, A to the other, B again
+                    code2, pos2, sub2 = rng.choice(axinfo)
+                    ev += [a(code, pos[p], sub), a(code2, pos2[q], sub2), a(code, pos[q], sub)]
+                else:
+                    ev += [a(code, pos[p], sub), a(code, pos[q], sub)]
                 if rng.random() < 0.25:
                     ev.append(a(agen.ABS_Z, rng.randint(0, 255)))
                 if rng.random() < 0.2:
@@ -94,8 +111,8 @@ class C07(DevProp):
                     ev.append(k(LEARN, 1 if learning else 0))
             if learning:
                 ev.append(k(LEARN, 0))
-            for code, pos in axinfo:
-                ev += [a(code, pos["far+"]), a(code, pos["far-"]), a(code, pos["c"])]
+            for code, pos, sub in axinfo:
+                ev += [a(code, pos["far+"], sub), a(code, pos["far-"], sub), a(code, pos["c"], sub)]
             cases.append({"cfg": cfg, "abs": absl, "events": ev, "pairs": pairs, "tag": "%d-axes" % naxes})
         return cases
 
